@@ -2032,7 +2032,10 @@ func init() {
 			pick("C01", 10, untagged, tagOf("noasm"))
 			pick("C05", 10, untagged, tagOf("noasm"))
 			if thorough {
-				pick("C04", 4, untagged, tagOf("inplacetranspose"))
+				// (sources with non-canonical strides panic in the in-place build: the open finding; only canonical ones here)
+				pick("C04", 4, func(in Instance) bool {
+					return untagged(in) && (in.Harness != "vhC04Copy" || (in.Cfg["layout"] == "C" && in.Cfg["lazyT"] == 0))
+				}, tagOf("inplacetranspose"))
 				pick("C02", 6, untagged, tagOf("noasm"))
 			}
 			return out
